@@ -21,6 +21,16 @@ Two probe families reproduce the OPEN findings on every run: `len(dfa)` raises O
 from 2^63 words on (key C13:len-overflow-2^63; the model's `lenBuiltin` has that branch and
 theorem C13_len_full_fails proves it) and cached queries on an unbound temporary raise
 RuntimeError (key C06:cached-query-on-temporary, owned by C06).
+
+Round 3 (seeded changes C13_w3m1 / C13_w3m2): SESSIONS — 4–16 C13 queries asked one after the other of ONE
+live object (count, words, partially consumed words generator, iteration prefix, min/max/empty/finite,
+cardinality/len, random_word, clear_cache, the same queries on `live.copy()`), every enumeration / count
+asked at least twice and interleaved with the others.  The live object is built under the default options
+or under `allow_mutable_automata = True` from plain `set` / `dict` containers (also: containers shared where
+a caller may share them; a `.copy()` that shares them).  EVERY answer is judged by the oracles above
+evaluated on the frozen twin (the definition AS BUILT), and — when the oracle accepts it — compared with the
+model's stateless answer for that definition.  A failing session is minimised (greedy removal of earlier
+steps) and recorded as a concrete replay.
 """
 from __future__ import annotations
 
@@ -44,7 +54,11 @@ RULE = ("cases = (valid DFA, query, parameters) with query ∈ {count k, words k
         "(≤6 states; random / acyclic / from_finite_language / empty / universal / extra rows), every DFA over "
         "the empty alphabet with ≤3 states, DFAs with 10–14 states (light: counts by forward path counting), "
         "of_length languages with up to 2^71 words (cardinality/len), random digraphs of 10–40 nodes for the "
-        "networkx contract, probes of the two open findings; a case is "
+        "networkx contract, probes of the two open findings; sessions = sequences of 4–16 queries on ONE object (every "
+        "enumeration / count asked twice, interleaved) × object built under the default options / under "
+        "allow_mutable_automata=True from plain, aliased or copied containers: fixed batteries on a corpus and on all DFAs "
+        "with ≤2 states over {a,b}, random sessions on shaped random DFAs, every answer judged against the language of the "
+        "definition as built; a case is "
         "non-trivial when the language is non-empty and the DFA has ≥2 states; distinct = distinct "
         "(definition, query, parameters)")
 ASSUMPTIONS = [
@@ -59,6 +73,9 @@ ASSUMPTIONS = [
     "on its range)",
     "networkx dag_longest_path_length / topological_sort are modelled by their contract; the contract function "
     "is compared with networkx itself and with an independent DFS oracle on random digraphs (DAGLEN family)",
+    "allow_mutable_automata=True: the caller does not modify the containers it handed to the constructor (the option's "
+    "documented condition; the harness never does); the language that the answers must match is that of the "
+    "definition as built (frozen twin).  Whether the live object's definition drifted is counted, not judged (C18)",
     "len(dfa): sys.maxsize = 2^63 - 1 (64-bit CPython); queries are made on bound objects (a cached query on an "
     "unbound temporary raises RuntimeError: open finding C06:cached-query-on-temporary, probed on every run)",
 ]
@@ -606,7 +623,18 @@ def check_big_dfa(ctx: Ctx, d: DFA, kind: str):
 # The live object is built by L3.build_live (default options, or allow_mutable_automata=True with plain /
 # aliased containers).  EVERY answer is judged by the oracles of this module evaluated on the frozen
 # twin `ref` (the definition as built), never on the live object.
-SESSION_TIMEOUT_S = 5
+SESSION_TIMEOUT_S = 4
+MINIMISE_BUDGET_S = 12
+
+
+def sessions_hanging(ctx: Ctx, limit: int = 3) -> bool:
+    """A query that no longer returns costs a full time-out: after a few of them the family stops (the
+    failing inputs found so far are reported)."""
+    if L.TIMEOUTS >= limit:
+        if not any("session family cut short" in n for n in ctx.notes):
+            ctx.note(f"{L.TIMEOUTS} real calls did not return within their time limit; session family cut short")
+        return True
+    return False
 
 
 def show_step(s: dict) -> str:
@@ -752,19 +780,23 @@ def run_session(ref: DFA, mode: str, steps, orc: SessionOracle = None):
             rec.append(choices)
             msg = orc.judge(s, got)
             if msg is not None:
-                bad.append((i, msg))
+                bad.append((i, "gave no answer within %d s" % SESSION_TIMEOUT_S if got == ("err", "_Timeout") else msg))
+                break       # the first wrong answer ends the session
         drift = L3.definition_of(live) != L3.definition_of(ref)
     return obs, rec, bad, drift
 
 
 def minimise_session(ref: DFA, mode: str, steps, index: int, orc: SessionOracle):
-    """Shortest sub-sequence (greedy, one step at a time) that still ends in a wrong answer to steps[index]."""
+    """Shortest sub-sequence (greedy, one step at a time, within a time budget) that still ends in a wrong answer
+    to steps[index]."""
+    import time
+    t0 = time.time()
     cur = list(steps[: index + 1])
     fails_at_end = lambda st: any(i == len(st) - 1 for i, _ in run_session(ref, mode, st, orc)[2])
     if not fails_at_end(cur):
         return cur      # not reproducible from a new object (left as recorded)
     j = len(cur) - 2
-    while j >= 0 and len(cur) > 1:
+    while j >= 0 and len(cur) > 1 and time.time() - t0 < MINIMISE_BUDGET_S:
         cand = cur[:j] + cur[j + 1:]
         if fails_at_end(cand):
             cur = cand
@@ -826,11 +858,13 @@ def session_model(ctx: Ctx, ref: DFA, orc: SessionOracle, steps, obs, rec):
 
 @case_guard
 def check_session(ctx: Ctx, ref: DFA, mode: str, steps, origin: str, orc: SessionOracle = None, model: bool = True):
+    if sessions_hanging(ctx):
+        return
     orc = orc or SessionOracle(ref)
     steps = [s for s in steps if orc.in_range(s)]
     obs, rec, bad, drift = run_session(ref, mode, steps, orc)
     nontrivial = (not orc.shape["empty"]) and len(ref.states) >= 2 and len(steps) >= 2
-    for s in steps:
+    for s in steps[: len(obs)]:
         ctx.case(None)
         ctx.stat("session_q:" + (s["q"] if s["q"] != "on_copy" else "on_copy." + s["sub"]["q"]))
     ctx.case(("session", mode, enc_dfa(ref)[0], json.dumps(steps, sort_keys=True)) if nontrivial else None)
@@ -844,7 +878,7 @@ def check_session(ctx: Ctx, ref: DFA, mode: str, steps, origin: str, orc: Sessio
                         answers=[str(o)[:50] for o in obs[:8]]))
     if bad:
         i, msg = bad[0]
-        small = minimise_session(ref, mode, steps, i, orc)
+        small = steps[: i + 1] if obs[i] == ("err", "_Timeout") else minimise_session(ref, mode, steps, i, orc)
         hist = "; ".join(show_step(s) for s in small[:-1])
         what = (f"{show_step(steps[i])} {msg} — asked of ONE object ({describe_mode(mode)}) after [{hist}]"
                 if small[:-1] else f"{show_step(steps[i])} {msg} — first query on an object ({describe_mode(mode)})")
